@@ -106,7 +106,7 @@ def run(tier, seed):
     q = tier == "quick"
     chk = vkit.Check("C32", tier, seed)
     rnd = random.Random(seed)
-    exe = vkit.cc("ws_drv", ["ws_drv.c"])
+    exe = ws.driver()
     st = ws.finding_status(chk)
     if ws.accept_of(RFC_KEY.encode()) != RFC_ACCEPT:
         raise vkit.InfraError("known-answer oracle disagrees with RFC 6455 section 1.3")
@@ -115,17 +115,12 @@ def run(tier, seed):
     if not q:
         lens |= {124, 128, 255, 256, 257, 65534, 131072, 16777217}
     codes = {0, 1000, 1001, 1002, 1009, 255, 256, 4999, 65535}
-    c = ws.consts(Mode="enc", KAT=kat, EncLens=lens, Codes=codes, D=3 if q else 4)
+    c = ws.consts(Mode="enc", KAT=kat, EncLens=lens, Codes=codes, D=3)
 
     # one TLC run: decides the encoder invariants in every state and emits every maximal history
     hists = ws.generate(chk, "C32_enc", c, invariants=("EncHdrOK", "EncDecodeOK", "CloseOK", "Emit"), timeout=1500)
-    if not q:
-        # D = 4 over all lengths is large: keep every history of <= 3 steps and a seeded sample of the longer ones
-        long_ = [h for h in hists if len(h) > 3]
-        rnd.shuffle(long_)
-        big = lambda h: sum(s["p"][0] for s in h if "p" in s)
-        long_ = [h for h in long_ if big(h) < 20000000][:6000]
-        hists = [h for h in hists if len(h) <= 3] + long_
+    # two 16 MiB sends in one history add nothing over one
+    hists = [h for h in hists if sum(s["p"][0] for s in h if "p" in s) < 20000000]
     ops = {}
     for h in hists:
         for s in h:
@@ -170,7 +165,7 @@ def run(tier, seed):
 
 
 def replay(case, seed):
-    exe = vkit.cc("ws_drv", ["ws_drv.c"])
+    exe = ws.driver()
     c = case["case"]
     o = vkit.run_driver(exe, [c["scenario"]])[0]
     print(json.dumps(o)[:2000])
